@@ -146,7 +146,9 @@ func (s *CDX) Serialize(bom *sbom.Document, _ *native.SerializeOptions, _ interf
 		}
 	}
 
-	if bom.Metadata != nil && bom.GetMetadata().GetName() != "" {
+	// The document name only stands in for a root component that has no name of
+	// its own: it must not replace the name of the root node.
+	if bom.Metadata != nil && bom.GetMetadata().GetName() != "" && doc.Metadata.Component.Name == "" {
 		doc.Metadata.Component.Name = bom.GetMetadata().GetName()
 	}
 
